@@ -51,6 +51,12 @@ func (r *Receiver) SegmentHandlerFunc(w http.ResponseWriter, req *http.Request) 
 	path := strings.TrimPrefix(req.URL.Path, r.prefix)
 	slog.Debug("Trimmed path", "path", path)
 	if chName, ok := matchMPD(path); ok {
+		// "all requests must have this user and password": MPD uploads as well
+		if chCfg := r.channelMgr.channelConfig(chName); !authorized(req, chCfg.AuthUser, chCfg.AuthPswd) {
+			slog.Error("Unauthorized", "chName", chName)
+			http.Error(w, "Unauthorized", http.StatusUnauthorized)
+			return
+		}
 		handleMPD(w, req, r.storage, chName)
 		return
 	}
